@@ -343,9 +343,11 @@ class Unit:
             if pos < 0:
                 raise ExtractError('@@lift anchor lost in %s: `%s`' % (qual, frm[0]))
             start = pos + 1
-        # innermost enclosing block of pos
+        # innermost enclosing block of the END of the anchor (an anchor ending in `{` selects the block it opens)
         depth = 0
-        j = pos
+        j = pos + len(frm[0]) - 1
+        if mask[j] == '{':
+            j += 1
         bopen = -1
         while j >= 0:
             c = mask[j]
